@@ -32,19 +32,30 @@ def spec_sort(rows, keyfn, reverse):
 
 def table_case(ctx, rng, pending, numkeys):
     rep = ctx.report
-    kind = rng.choice(['text', 'num', 'num', 'two-fields', 'callable', 'list', 'num-and-formatted', 'formatted-and-num'])
+    kind = rng.choice(['text', 'num', 'num', 'two-fields', 'callable', 'list', 'num-and-formatted', 'formatted-and-num',
+                       'num-odd-name', 'two-odd-names'])
     n = rng.choice([0, 1, 2, 5, 12, 40])
     reverse = rng.random() < 0.4
     bs = rng.choice([1, 2, 1000])
     rows = []
     for i in range(n):
         rows.append({'t': rng.choice(TEXTS), 'x': rng.choice(NUMS), 'y': rng.choice([1, 2, 3]), 'id': i})
+    odd = rng.choice(['unit price', 'GDP (USD)', 'year-end', 'ü', '%'])      # ('.', '[', '!', ':' have a meaning inside {})
+    if kind in ('num-odd-name', 'two-odd-names'):
+        # field names need not be identifiers
+        for r in rows:
+            r[odd] = r['x']
+            r['n 2'] = r['y']
     if kind == 'text':
         key, keyfn = '{t}', (lambda r: r['t'])
     elif kind == 'num':
         key, keyfn = '{x}', (lambda r: num_key(r['x']))
     elif kind == 'two-fields':
         key, keyfn = '{y}{x}', (lambda r: (num_key(r['y']), num_key(r['x'])))
+    elif kind == 'num-odd-name':
+        key, keyfn = '{%s}' % odd, (lambda r: num_key(r[odd]))
+    elif kind == 'two-odd-names':
+        key, keyfn = '{n 2}{%s}' % odd, (lambda r: (num_key(r['n 2']), num_key(r[odd])))
     elif kind == 'num-and-formatted':
         # a plain numeric field keeps its numeric order whatever the other fields of the format string look like
         key, keyfn = '{x}{t:<6}', (lambda r: (num_key(r['x']), format(r['t'], '<6')))
@@ -54,7 +65,7 @@ def table_case(ctx, rng, pending, numkeys):
         key, keyfn = ['y', 'x'], (lambda r: (num_key(r['y']), num_key(r['x'])))
     else:
         key, keyfn = (lambda r: '%05d' % (r['y'] * 7 % 5)), (lambda r: '%05d' % (r['y'] * 7 % 5))
-    case = {'key_kind': kind, 'reverse': reverse, 'batch_size': bs,
+    case = {'key_kind': kind, 'key': key if isinstance(key, (str, list)) else 'callable', 'reverse': reverse, 'batch_size': bs,
             'rows': [[r['t'], canon.canon_json(r['x']), r['y']] for r in rows]}
     data = copy.deepcopy(rows) or None
     if not rows:
